@@ -458,7 +458,7 @@ func directedDeadlockSearch(env *vh.Env, rep *vh.Report, facts lockFacts, only m
 			trials = 4000
 		}
 		found := map[string]bool{}
-		for t := 0; t < trials && len(found) < 3; t++ {
+		for t := 0; t < trials && len(found) < 3 && !(t >= 200 && phaseOver()); t++ {
 			obj := c.mk()
 			var setup []string
 			ok := true
